@@ -682,7 +682,7 @@ class FieldsJson(FieldValueBase):
         try:
             raw_values = json.loads(parsable.decode('ascii'), object_pairs_hook=collections.OrderedDict)
         except (ValueError, RecursionError) as e:  # json.decoder.JSONDecodeError is derived from ValueError
-            six.raise_from(InvalidValue(six.ensure_text(parsable, 'ascii', 'replace'), cls, 'value'), e)
+            six.raise_from(InvalidValue(six.ensure_text(bytes(parsable), 'ascii', 'replace'), cls, 'value'), e)
 
         attr_fields_dict = attr.fields_dict(cls)
 
@@ -692,8 +692,8 @@ class FieldsJson(FieldValueBase):
                 for attribute_name, validator_class in cls._get_attr_to_validator_type_dict(attr_fields_dict).items()
                 if validator_class.get_canonical_name() in raw_values
             }), len(parsable)
-        except TypeError as e:
-            six.raise_from(InvalidValue(six.ensure_text(parsable, 'ascii', 'replace'), cls, 'value'), e)
+        except (TypeError, ValueError, OverflowError) as e:
+            six.raise_from(InvalidValue(six.ensure_text(bytes(parsable), 'ascii', 'replace'), cls, 'value'), e)
 
     def compose(self):
         attr_fields_dict = attr.fields_dict(type(self))
@@ -770,7 +770,7 @@ class FieldValueMultiple(FieldValueBase):
         try:
             return cls(**params), len(parsable)
         except TypeError as e:
-            six.raise_from(InvalidValue(six.ensure_text(parsable, 'ascii', 'replace'), cls, 'value'), e)
+            six.raise_from(InvalidValue(six.ensure_text(bytes(parsable), 'ascii', 'replace'), cls, 'value'), e)
 
     def compose(self):
         composer = ComposerText()
@@ -1033,7 +1033,7 @@ class FieldValueStringEnum(FieldValueSingleComplexBase):
         try:
             value = cls._get_value_type().parse_exact_size(parsable)
         except InvalidValue as e:
-            six.raise_from(InvalidValue(six.ensure_text(parsable, 'ascii', 'replace'), cls, 'value'), e)
+            six.raise_from(InvalidValue(six.ensure_text(bytes(parsable), 'ascii', 'replace'), cls, 'value'), e)
 
         return cls(value), len(parsable)
 
